@@ -330,10 +330,14 @@ BestRead(w) ==
   /\ UNCHANGED <<cf, op, cur, seen, newId, did, avars, svars, delivered>>
 CompleteDone(w) ==
   /\ pc[w] = "k_done"
-  /\ LET s == S(w) IN
-     IF ~Tr(w).inf /\ (bseen[w] = 0 \/ RewardOf(trials[s][bseen[w]].id) < RewardOf(Tr(w).id))
-     THEN best' = [best EXCEPT ![s] = cur[w]]
-     ELSE UNCHANGED best
+  /\ LET s == S(w)
+         better == IF bseen[w] = 0 THEN TRUE ELSE RewardOf(trials[s][bseen[w]].id) < RewardOf(Tr(w).id)
+         tie == IF bseen[w] = 0 THEN FALSE ELSE RewardOf(trials[s][bseen[w]].id) = RewardOf(Tr(w).id)
+     IN  \* among equally good trials either may be kept (the statement asks for *a* best trial)
+         \/ /\ IF Tr(w).inf THEN FALSE ELSE IF better THEN TRUE ELSE tie
+            /\ best' = [best EXCEPT ![s] = cur[w]]
+         \/ /\ IF Tr(w).inf THEN TRUE ELSE ~better
+            /\ UNCHANGED best
   /\ bseen' = [bseen EXCEPT ![w] = 0]
   /\ Goto(w, "k_rel")
   /\ UNCHANGED <<cf, op, cur, seen, newId, did, avars, trials, latest, active, studyLock, pendingCnt,
@@ -384,9 +388,10 @@ At(l) == {w \in Active : pc[w] = l}
 InConstructor(w) == pc[w] \in {"goc_acq", "goc_test", "goc_store", "goc_rel", "setup_acq", "setup_test",
                                  "setup_begin", "setup_do", "setup_rel"}
 SingleCreator == Cardinality(At("goc_store")) <= 1 /\ (At("goc_store") # {} => registry = NULL)
+NoHalfSetup == \A w \in Active : ~InConstructor(w) => algDone
 SetupAtomic ==
   /\ Cardinality(At("setup_begin") \cup At("setup_do")) + (IF algDone THEN 1 ELSE 0) <= 1
-  /\ \A w \in Active : ~InConstructor(w) => algDone
+  /\ NoHalfSetup
 SingleCompleter ==
   \A w1, w2 \in At("d_set") : S(w1) = S(w2) /\ cur[w1] = cur[w2] => w1 = w2
 Quiescent == \A w \in Workers : pc[w] = "stop"
